@@ -250,6 +250,10 @@ func (p *Parser) led(tokenType tokType, node ASTNode) (ASTNode, error) {
 		right, err := p.parseExpression(bindingPowers[tAnd])
 		return ASTNode{nodeType: ASTAndExpression, children: []ASTNode{node, right}}, err
 	case tLparen:
+		// Only an unquoted identifier directly before "(" names a function.
+		if node.nodeType != ASTField || p.lookaheadToken(-2).tokenType != tUnquotedIdentifier {
+			return ASTNode{}, p.syntaxErrorToken("Invalid function call: expected a function name before (", p.lookaheadToken(-1))
+		}
 		name := node.value
 		var args []ASTNode
 		if p.current() != tRparen {
